@@ -2,14 +2,15 @@
 """Regenerates MANIFEST.json from props.json (claimed checks) and tools/manifest_meta.json (texts)."""
 import json, os
 ROOT = os.path.dirname(os.path.dirname(os.path.abspath(__file__)))
-props = json.load(open(os.path.join(ROOT, "props.json")))
+import glob
+props = {os.path.basename(f)[:-5]: json.load(open(f)) for f in sorted(glob.glob(os.path.join(ROOT, "props", "C*.json")))}
 meta = json.load(open(os.path.join(ROOT, "tools", "manifest_meta.json")))
 all_ids = [json.loads(l)["id"] for l in open(os.path.join(ROOT, "properties.jsonl"))]
 checks = []
 for pid in all_ids:
     if pid not in props or not props[pid].get("claimed", True):
         continue
-    m = meta["checks"][pid]
+    m = props[pid]
     checks.append({
         "property_id": pid,
         "quick_cmd": "./check %s --tier quick" % pid,
